@@ -297,6 +297,8 @@ def gen_world(rw, tier="quick"):
     for t in sorted(tokens):
         r = rw.random()
         usd = 0.0 if r < 0.07 else 10 ** (rw.uniform(1, 3) if r < 0.2 else rw.uniform(3.5, 7.5))
+        if usd == 0.0 and rw.random() < 0.5:
+            continue  # the wallet does not know this token at all
         amt = Decimal(repr(usd)) / D(prices[t][0])
         assets[t] = format(amt.quantize(Decimal(1).scaleb(-min(tokens[t], 8))), "f")
     world = {"start": str(start), "n": n, "interval": "1min", "tokens": tokens, "assets": assets, "quote": "USD", "prices": prices, "markets": markets}
